@@ -227,8 +227,14 @@ func (s *chaos) build() {
 		g.do("scribblerows " + t)
 	default:
 		es := fmt.Sprintf("%d", 500+r.n(40))
+		if r.chance(1, 6) {
+			es = "nil" // recording "no error"
+		}
 		switch r.n(5) {
 		case 4:
+			if es == "nil" {
+				es = "555"
+			}
 			if row := s.anyRow(); row != "" && g.x.rows[idOf(row)] != nil && r.chance(1, 2) {
 				g.do("rowadderrself " + row + " " + es)
 			} else {
